@@ -81,16 +81,16 @@ class MathShift(Command):
         inEnv = self.envStack(self.ownerDocument)
 
         current = self.ownerDocument.createElement('math')
-        for t in tex.itertokens():
-            if t.catcode == Token.CC_MATHSHIFT:
-                # Case where we have $   $$    $ construction
-                if inEnv and inEnv[-1] is not None and type(inEnv[-1]) is type(current):
-                    tex.pushToken(t)
-                else:
+        # A single $ ends inline math.  Don't look at the next token in that
+        # case: it must be read with the category codes and \let aliases
+        # that are in force once the math group has been closed.
+        if not (inEnv and inEnv[-1] is not None and type(inEnv[-1]) is type(current)):
+            for t in tex.itertokens():
+                if t.catcode == Token.CC_MATHSHIFT:
                     current = self.ownerDocument.createElement('displaymath')
-            else:
-                tex.pushToken(t)
-            break
+                else:
+                    tex.pushToken(t)
+                break
 
         # See if this is the end of the environment
         if inEnv and inEnv[-1] is not None and type(inEnv[-1]) is type(current):
